@@ -61,7 +61,7 @@ MInit(h) ==
     cburst  |-> {},                                    \* [p, pr, since]: waiters resumed by the latest evaluation pass of the condition, not back yet
     cseen   |-> {},                                    \* waiters whose predicate that pass has evaluated
     cfresh  |-> TRUE,                                  \* the next predicate evaluation starts a new pass
-    csub    |-> {},                                    \* guards the condition is subscribed to
+    csub    |-> [g \in Guards |-> 0],                  \* how many times the condition is registered as an observer of guard g
     rec     |-> [o \in Guards |-> [on |-> FALSE, t0 |-> 0, traj |-> <<>>, phase |-> "idle"]],   \* idle -> on -> stopped -> closed
     gone    |-> {},                                    \* <<guard, process>> taken out of the condition's list since the last operation
     actor   |-> [p |-> 0, op |-> "none"],                \* who performed the step that the next snapshot closes
@@ -272,9 +272,9 @@ OnDo(m, e) ==
          \* a release signals the resource's guard; a condition subscribed to it must have evaluated all its waiters
          LET evald == {x.p : x \in m.preds}
              trues == {x.p : x \in {y \in m.preds : y.v}}
-             fwdMissing == a[1] \in m.csub /\ \E x \in m.gq[GCOND] : x.p \notin evald
+             fwdMissing == m.csub[a[1]] > 0 /\ \E x \in m.gq[GCOND] : x.p \notin evald
              due == {x.p : x \in {y \in m.truths : y.v}} \cap m.sigq
-             fwdLost == a[1] \in m.csub /\ (trues \ m.cgrants # {} \/ due \ m.cgrants # {})
+             fwdLost == m.csub[a[1]] > 0 /\ (trues \ m.cgrants # {} \/ due \ m.cgrants # {})
          IN [m |-> [m EXCEPT !.holder[a[1]] = 0],
              bad |-> (IF m.holder[a[1]] # p THEN Bad("C05", "release-by-process-that-is-not-the-holder-of-record") ELSE {})
                 \cup (IF fwdMissing THEN Bad("C13", "observed-guard-signalled-but-condition-waiter-not-evaluated") ELSE {})
@@ -304,7 +304,9 @@ OnDo(m, e) ==
          IN [m |-> IF e.op = "ccancel" /\ e.out[1] = 1 THEN AddCause(m1, a[1], "ccancel", CANCELLED, t) ELSE m1,
              bad |-> (IF (e.out[1] = 1) # was THEN Bad("C13", "cancel-or-remove-result-disagrees-with-queue") ELSE {})
                 \cup (IF ~exact THEN Bad("C13", "cancel-or-remove-took-out-another-process") ELSE {})]
-    [] e.op = "csub" -> [m |-> [m EXCEPT !.csub = @ \cup {IF a[1] = 0 THEN 1 ELSE GBUFF}], bad |-> {}]
+    [] e.op = "csub" -> [m |-> [m EXCEPT !.csub[IF a[1] = 0 THEN 1 ELSE GBUFF] = @ + 1], bad |-> {}]
+    [] e.op = "cunsub" ->    \* the library's own answer decides whether a registration went away (the property is silent on it)
+         [m |-> [m EXCEPT !.csub[IF a[1] = 0 THEN 1 ELSE GBUFF] = IF e.out[1] = 1 /\ @ > 0 THEN @ - 1 ELSE @], bad |-> {}]
     [] e.op = "evcancel" ->
          IF e.out[1] = 1
            THEN LET ws == {q \in Procs(m) : m.blk[q].op = "wevent" /\ m.blk[q].a[1] = a[1]}
